@@ -109,3 +109,34 @@ func contract_parseNumber(input []byte) (n int, ok bool) {
 	ensures(imp(!ok, n == 0))
 	return
 }
+
+// ---------------------------------------------------------------- string literals: \u escapes (C21)
+
+// specHexDigit: RFC 8259 section 7: a \u escape is followed by exactly four hexadecimal digits.
+func specHexDigit(c byte) bool {
+	return '0' <= c && c <= '9' || 'a' <= c && c <= 'f' || 'A' <= c && c <= 'F'
+}
+
+// parseString: whenever the lexer steps over the six bytes of a \uXXXX escape (both the first
+// escape and the second half of a surrogate pair), the four bytes after "\u" are hexadecimal
+// digits, and the lexer never indexes outside its input. (strconv.ParseUint is modelled by its
+// documentation.) The rest of the string grammar - which characters may appear unescaped, the
+// two-character escapes, UTF-8 validity - is not under contract.
+//
+// @ props C21
+// @ mode int
+// @ pure utf16.DecodeRune utf16.IsSurrogate
+// @ site in = in[6:]: len(in) >= 6 && specHexDigit(in[2]) && specHexDigit(in[3]) && specHexDigit(in[4]) && specHexDigit(in[5])
+func contract_Decoder_parseString(d *Decoder, in []byte) (s string, n int, err error) {
+	modifiesAll()
+	return
+}
+
+// indexNeedEscapeInBytes scans (a string view of) b with a rune-wise range loop: trusted summary of
+// the only fact the lexer's slicing relies on - the index it returns lies within b.
+//
+// @ trusted
+func contract_indexNeedEscapeInBytes(b []byte) (r int) {
+	ensuresTrusted(0 <= r && r <= len(b))
+	return
+}
